@@ -137,7 +137,7 @@ fn k_ts_3_first_disambiguator() {
     std::mem::forget(d);
 }
 
-//@off(pending-measurement) id=K-TS-4 kind=B bound=one-entry props=C06 timeout=1200 fn=IdentityMap::seed,IdentityMap::reuse,IdentityMap::is_active,IdentityMap::drain
+//@off(cbmc-does-not-finish) id=K-TS-4 kind=B bound=one-entry props=C06 timeout=1200 fn=IdentityMap::seed,IdentityMap::reuse,IdentityMap::is_active,IdentityMap::drain
 //@ pre: an identity map seeded with one (identity, id) from the previous execution; the new execution either re-creates that identity or not (symbolic)
 //@ post: reuse returns exactly the seeded id; drain classifies the entry as active iff it was re-created, else stale; nothing is lost or invented
 #[cfg_attr(kani, kani::proof)]
